@@ -7,12 +7,13 @@ from .report import Machinery
 
 def _parse(res, n_expected_traces, expected):
     bad = []
-    for l in res.out.splitlines():
-        m = re.match(r'^<<"BAD", (.*), (\d+), "([^"]*)">>$', l)
-        if m:
-            tid = m.group(1)
-            tid = json.loads(tid) if tid.startswith('"') else int(tid)
-            bad.append((tid, int(m.group(2)), m.group(3)))
+    # TLC wraps long tuples over several lines: match across line breaks, and count the markers independently
+    for m in re.finditer(r'<<\s*"BAD",\s*("[^"]*"|\d+),\s*(\d+),\s*"([^"]*)"\s*>>', res.out):
+        tid = m.group(1)
+        tid = json.loads(tid) if tid.startswith('"') else int(tid)
+        bad.append((tid, int(m.group(2)), m.group(3)))
+    if len(bad) != len(re.findall(r'<<\s*"BAD",', res.out)):
+        raise Machinery("trace monitor printed %d BAD markers but %d could be read\n%s" % (len(re.findall(r'<<\s*"BAD",', res.out)), len(bad), res.out[-1500:]))
     m = re.search(r'<<"MONITOR", (\d+), (\d+)>>', res.out)
     if res.rc != 0 or res.errors or not m:
         raise Machinery("trace monitor failed rc=%s %s\n%s" % (res.rc, res.errors, res.out[-3000:]))
